@@ -232,6 +232,12 @@ func (g *Gen) trustedDecls() string {
 		b.WriteString("(declare-fun str_num (Str) " + g.mathSort() + ")\n")
 		b.WriteString("(declare-fun str_float (Str) (_ FloatingPoint 11 53))\n")
 	}
+	for _, n := range sortedKeysS(g.elemFns) {
+		es := g.elemFns[n]
+		ix := g.idxSort()
+		b.WriteString("(declare-fun " + n + " ((Array " + ix + " " + es + ") " + ix + " " + ix + ") " + es + ")\n")
+		b.WriteString("(assert (forall ((a (Array " + ix + " " + es + ")) (o " + ix + ") (k " + ix + ")) (! (= (" + n + " a o k) (select a " + g.idxAdd("o", "k") + ")) :pattern ((" + n + " a o k)))))\n")
+	}
 	runeS := g.S.sortOf(types.Typ[types.Int32])
 	for _, n := range sortedKeys(g.needUni) {
 		b.WriteString("(declare-fun " + n + " (" + runeS + ") Bool)\n")
@@ -261,6 +267,15 @@ func (g *Gen) trustedDecls() string {
 		}
 	}
 	return b.String()
+}
+
+func sortedKeysS(m map[string]string) []string {
+	var out []string
+	for k := range m {
+		out = append(out, k)
+	}
+	sortStrings(out)
+	return out
 }
 
 func sortedKeys(m map[string]bool) []string {
